@@ -13,6 +13,7 @@ type vLimEnv struct {
 	out    []int
 	times  []int64
 	batch  []int // index of the batch (= number of Sleep calls before the send)
+	rtimes []int64 // clock reading right after each element was taken from the input
 	t0     int64
 }
 
@@ -49,8 +50,15 @@ func vLimitSetup() *vLimEnv {
 	vAssert(vAnd(rate.Interval > 0, rate.Quantity > 0), "New accepts only valid rates")
 	e.d = d
 	vSink(d.output)
+	vOnRecv(in, func(v any, ok bool) {
+		if ok {
+			vAdvance() // real time passes between the discipline's own clock readings
+			e.rtimes = append(e.rtimes, vNow())
+		}
+	})
 	vOnSend(d.output, func(v any) {
 		e.out = append(e.out, v.(int))
+		vAdvance()
 		e.times = append(e.times, vNow())
 		e.batch = append(e.batch, vSleepCount())
 	})
@@ -123,6 +131,23 @@ func VerifC04_limit_run() {
 	ns := vSleepCount()
 	for s := 0; s < ns; s++ {
 		vAssert(vSleepArg(s) <= I, "C12: a pause never exceeds the Interval")
+	}
+	// a pause tops the time the batch took up to one Interval, never beyond: the batch's first element
+	// was taken at rtimes[first] (or later than the batch began), its last element left at times[last]
+	for s := 0; s < ns; s++ {
+		first, last := -1, -1
+		for i := range e.out {
+			if e.batch[i] == s {
+				if first < 0 {
+					first = i
+				}
+				last = i
+			}
+		}
+		if first >= 0 && first < len(e.rtimes) {
+			vReach("pause-checked")
+			vAssert(vSleepArg(s) <= I-(e.times[last]-e.rtimes[first]), "C12: a pause plus the time its batch took never exceeds one Interval (no throttling below the configured rate)")
+		}
 	}
 	if uint64(M) < Q {
 		vAssert(ns == 0, "C12: fewer than Quantity elements pass with no pause at all")
